@@ -7,7 +7,8 @@
 From Coq Require Import Sorting.Sorted.
 From DicomV Require Import Base.Endian Model.Vr Model.Header Model.Prim Model.Dataset Model.Writer Model.Reader
   Spec.Ps35 Proofs.HeaderP Proofs.PrimP Proofs.WriterP Proofs.ValidP Proofs.FlatP Proofs.ValueP Proofs.ReaderP
-  Proofs.RoundTripP Proofs.TotalP Proofs.NestedP.
+  Proofs.RoundTripP Proofs.TotalP Proofs.NestedP Proofs.ReadStepsP Proofs.ReadTreeP Proofs.BuildTreeP
+  Proofs.RoundTripTreeP.
 Open Scope N_scope.
 
 (** Full statement (kept visible): every well-formed data set, of any nesting,
@@ -50,6 +51,47 @@ Proof.
   intros c nc inv d is_sq es Hw H1 H2 S. destruct (write_flat_total c nc inv es Hw) as [b E].
   exists b. split; [exact E | exact (roundtrip_flat c nc inv d is_sq es b H1 H2 S E)].
 Qed.
+
+(** Proved part 3 (the strongest): data sets with NESTED SEQUENCES AND ITEMS OF
+    ANY DEPTH and ENCAPSULATED PIXEL DATA (offset table and fragments, also
+    zero-length ones), written with the default strategy (every sequence and
+    item gets an undefined length and its delimiter), in every codec: whatever
+    the writer produces is read back as the normalised data set [norm_tree]
+    (primitive elements as in the flat case, recorded sequence/item lengths
+    replaced by "undefined", fragments padded to even length). Proof: writer =
+    direct recursive encoding (Proofs/NestedP.v), reader state machine over
+    that encoding with the delimiter-stack invariant (ReadStepsP, ReadPixP,
+    ReadTreeP: mutual structural induction over elements / element lists / item
+    lists), object building incl. sorted insertion (BuildTreeP).
+    [readable]: primitive elements as in the flat theorem; sequence tags are
+    not in group FFFE and not Pixel Data; element lists of items have ascending tags;
+    offset-table entries are 32-bit, fragments shorter than 2^32-2 bytes.
+    [delim_ok]: in implicit VR the dictionary does not call the item delimiter
+    tag a sequence (trivially true in explicit VR). *)
+Theorem C01_roundtrip_undefined_nesting : forall c d es b,
+  delim_ok c d -> Forall (readable c d) es -> StronglySorted tag_lt (map elem_tag es) ->
+  write_dataset c false false es = Ok b ->
+  read_dataset c d b = Ok (map (norm_tree c d) es).
+Proof. exact roundtrip_tree. Qed.
+
+(** ... and writing such a data set never fails or panics. *)
+Theorem C01_write_total_nested : forall c es,
+  Forall (writable c) es -> Forall regular es -> exists b, write_dataset c false false es = Ok b.
+Proof. exact write_tree_total. Qed.
+
+Theorem C01_nested : forall c d es,
+  delim_ok c d -> Forall (writable c) es -> Forall (readable c d) es ->
+  StronglySorted tag_lt (map elem_tag es) ->
+  exists b, write_dataset c false false es = Ok b /\ read_dataset c d b = Ok (map (norm_tree c d) es).
+Proof.
+  intros c d es Hd W R S.
+  assert (Rg : Forall regular es) by (eapply Forall_impl; [apply (readable_regular c d) | exact R]).
+  destruct (write_tree_total c es W Rg) as [b E]. exists b. split; [exact E | exact (roundtrip_tree c d es b Hd R S E)].
+Qed.
+
+(** What remains of the full statement and is NOT proved: the NoChange strategy
+    with recorded (defined) lengths kept, and the charset-changed flag with
+    nesting; both are covered by the correspondence and the oracle only. *)
 
 (** The normalisation of values, made explicit for the two big classes. *)
 (** Binary words (US SS OW UL SL OL FL OF UV SV OV FD OD): exactly the numbers written. *)
@@ -124,6 +166,38 @@ Example C01_nonvacuous :
   end.
 Proof. vm_compute. split; reflexivity. Qed.
 
+
+(** Non-vacuity of the nested theorem: a data set with a sequence of two items
+    (one holding a nested sequence with an empty item, one empty), and
+    encapsulated pixel data with an empty offset table, a fragment and a
+    zero-length fragment meets all hypotheses of [C01_nested]. *)
+Definition C01_example_nested : list elem :=
+  [ EPrim (16, 16) PN 0 (PStrs [[68; 111; 101]]);
+    ESeq (64, 629) SQ 0
+      [ (0, [EPrim (8, 256) SH 0 (PStrs [[65]]); ESeq (8, 4416) SQ 0 [(0, [])]]);
+        (0, []) ];
+    EPix pixel_tag OB undef [] [[1; 2]; []] ].
+
+Ltac solve_side :=
+  repeat (split || constructor); cbn;
+  try reflexivity; try discriminate; try lia; try (intros; discriminate); try (intros; congruence);
+  try (unfold tag_lt, tag_ltb; reflexivity).
+
+Example C01_nested_nonvacuous :
+  let d : dict_t := fun _ => None in
+  delim_ok ELE d /\ Forall (writable ELE) C01_example_nested /\ Forall (readable ELE d) C01_example_nested
+  /\ StronglySorted tag_lt (map elem_tag C01_example_nested).
+Proof.
+  cbv zeta. split; [reflexivity|]. split; [|split].
+  - unfold C01_example_nested. repeat constructor; unfold elem_writable, plain, hdr_ok; solve_side.
+  - unfold C01_example_nested. repeat constructor; unfold elem_ok, rt_ok, plain, wf_tag; solve_side.
+  - unfold C01_example_nested. repeat constructor; unfold tag_lt, tag_ltb; reflexivity.
+Qed.
+
+Check C01_roundtrip_undefined_nesting : forall c d es b,
+  delim_ok c d -> Forall (readable c d) es -> StronglySorted tag_lt (map elem_tag es) ->
+  write_dataset c false false es = Ok b ->
+  read_dataset c d b = Ok (map (norm_tree c d) es).
 Check C01_roundtrip_flat : forall c nochange inv d is_sq es b,
   Forall (elem_ok c is_sq) es -> Forall (rt_ok c d) es ->
   StronglySorted tag_lt (map elem_tag es) ->
@@ -132,6 +206,9 @@ Check C01_roundtrip_flat : forall c nochange inv d is_sq es b,
 Print Assumptions C01_roundtrip_flat.
 Print Assumptions C01_write_total_flat.
 Print Assumptions C01_flat.
+Print Assumptions C01_roundtrip_undefined_nesting.
+Print Assumptions C01_write_total_nested.
+Print Assumptions C01_nested.
 Print Assumptions C01_value_words.
 Print Assumptions C01_value_text.
 Print Assumptions C01_value_words_raw.
